@@ -457,6 +457,7 @@ func judgeC10(c c10Case) (v core.Verdict) {
 			p.Data = &d
 		}
 		m, discard := mj.ModelRun(&p, func(in *mj.Interp) {
+			c18ModelSetup(in)
 			in.Funcs["rtprobe"] = func(*mj.Interp, []interface{}) interface{} { return nil }
 		})
 		if discard == "" && m.Err == nil && m.Out != want[i].Out {
